@@ -266,7 +266,7 @@ func genCase(t *rapid.T) Case {
 var _ = pbt.Register(pbt.Spec[Case]{
 	Property: "C17", Name: "equal",
 	Rule:     "pairs of value trees: (layout) one value and a re-expression of it - trailing zero data words/null pointers added to structs and struct-list elements, non-empty primitive/pointer/void lists upgraded to struct lists holding the value as first field - in independently drawn encodings (segments, far/double-far); (mutant) a value and a copy with exactly one change (one data bit, one list element bit, one length, null<->empty struct, struct/list->null, extra non-zero word, capability index), possibly re-expressed; (independent) two random values; capability tables with drawn client identities, nil entries and short tables, same or different message. Oracle: ref.Equal = the doc comment of capnp.Equal, asserted as iff where the documentation decides the pair (zero-length lists of different kinds, void-vs-bit, bit-vs-struct lists, nil clients across messages are 'unspecified' and only checked for symmetry/no error); plus symmetry and reflexivity. Non-trivial: layout pair expected equal, or one-change mutant expected unequal.",
-	Quick:    20000, Thorough: 600000,
+	Quick:    60000, Thorough: 900000,
 	Gen:      genCase,
 	Run:      run,
 })
